@@ -488,6 +488,38 @@ func (p *pathInfo) linearOf(v ssa.Value) linear {
 	return l
 }
 
+// narrowed reports whether v, on the way linearOf looks through it, passes a conversion to a
+// smaller integer type: a range test made on such a value says nothing about the value before
+// the conversion (int64(int16(x)) is always within the 16-bit range).
+func (p *pathInfo) narrowed(v ssa.Value) bool {
+	sizes := types.SizesFor("gc", "amd64")
+	found := false
+	var walk func(v ssa.Value, depth int)
+	walk = func(v ssa.Value, depth int) {
+		v = p.resolve(v)
+		if depth > 32 || found {
+			return
+		}
+		switch x := v.(type) {
+		case *ssa.Convert:
+			if isIntType(x.Type()) && isIntType(x.X.Type()) {
+				if sizes.Sizeof(x.Type().Underlying()) < sizes.Sizeof(x.X.Type().Underlying()) {
+					found = true
+					return
+				}
+				walk(x.X, depth+1)
+			}
+		case *ssa.BinOp:
+			if x.Op == token.ADD || x.Op == token.SUB {
+				walk(x.X, depth+1)
+				walk(x.Y, depth+1)
+			}
+		}
+	}
+	walk(v, 0)
+	return found
+}
+
 func isIntType(t types.Type) bool {
 	b, ok := t.Underlying().(*types.Basic)
 	return ok && b.Info()&types.IsInteger != 0
